@@ -77,7 +77,7 @@ var (
 // has exactly `target` bytes (and is shorter than the input, so the compressed form is kept).
 // Returns nil if no such payload could be constructed.
 func c13Payload(compr, mode string, target, idx int) []byte {
-	if compr == compression.None || mode == "raw" || target < 256 {
+	if compr == compression.None || mode == "raw" || target < 512 {
 		b := make([]byte, target)
 		c13Noise(b, uint64(idx)+1)
 		return b
@@ -92,7 +92,7 @@ func c13Payload(compr, mode string, target, idx int) []byte {
 	k := target - 128
 	var found []byte
 	for iter := 0; iter < 200 && k > 0; iter++ {
-		p := make([]byte, k+8192)
+		p := make([]byte, k+1024)
 		c13Noise(p[:k], uint64(idx)+1)
 		e, err := compression.Encode(compr, p, enc)
 		if err != nil {
@@ -424,14 +424,14 @@ func c13LiveLogs(thorough bool) []c13LiveLog {
 		{"zero-length-first-fragment", c13Log{n(compression.None, 4, false), []int{c13P - 14, 5}}},
 		{"six-byte-padding", c13Log{n(compression.None, 4, false), []int{c13P - 13, 5, 0}}},
 		{"first-last-across-pages", c13Log{n(compression.None, 4, true), []int{10000, 10000, 10000, 5000, 3}}},
-		{"snappy-boundary", c13Log{n(compression.Snappy, 4, false), []int{c13P - 14, 300, 5}}},
+		{"snappy-boundary", c13Log{n(compression.Snappy, 4, false), []int{c13P - 14, 600, 5}}},
 	}
 	if thorough {
 		ls = append(ls,
 			c13LiveLog{"one-page-record-then-empty", c13Log{n(compression.None, 4, false), []int{c13P - 7, 0}}},
 			c13LiveLog{"first-middle-last", c13Log{n(compression.None, 4, false), []int{100, 2*c13P - 50, 9}}},
 			c13LiveLog{"page-sized-record", c13Log{n(compression.None, 4, false), []int{c13P, 1}}},
-			c13LiveLog{"zstd-boundary", c13Log{n(compression.Zstd, 4, true), []int{c13P - 15, 400, 0, 7}}},
+			c13LiveLog{"zstd-boundary", c13Log{n(compression.Zstd, 4, true), []int{c13P - 15, 700, 0, 7}}},
 			c13LiveLog{"segment-of-one-page", c13Log{n(compression.None, 1, false), []int{c13P - 14, 5, c13P - 6, 2}}},
 			c13LiveLog{"oversize-record-empty-segment", c13Log{n(compression.None, 1, false), []int{c13P - 6, 1}}},
 			c13LiveLog{"eight-left", c13Log{n(compression.None, 2, false), []int{c13P - 15, 2, 2}}},
